@@ -130,63 +130,150 @@ def term_str(t):
   return "%s%s%s" % (tag, "(%s)" % name if name else "", "[%s]" % inner if args else "")
 
 
-def judge(run, recs, srcs, terms, rows, names, selftest=False):
-  """TLC judges the recorded round trips and the pair rows (rows split over <= 4 JVMs)."""
+def run_trace(job, cfg, timeout=6000):
+  d = tlc.scratch("trace-TraceC12")
+  try:
+    tf = os.path.join(d, "trace.json")
+    with open(tf, "w") as f:
+      json.dump(job, f)
+    r = tlc.run("TraceC12", cfg, workers=1, timeout=timeout, env={"TRACE_FILE": tf}, heap="6g")
+  finally:
+    import shutil
+    shutil.rmtree(d, ignore_errors=True)
+  if r.violated or r.rc != 0 or "violated" in r.out:
+    raise common.Machinery("TraceC12 did not consume its trace:\n" + r.out[-2500:])
+  return r
+
+
+def mkjob(runs=(), terms=(), ct=(), rows=(), xrows=(), life=()):
+  return {"runs": list(runs), "terms": list(terms), "ct": list(ct), "rows": list(rows),
+          "xrows": list(xrows), "life": list(life)}
+
+
+def observe_pair(na, nb):
+  return {"a == b": na == nb, "hash(a) == hash(b)": hash(na) == hash(nb), "len({a, b})": len({na, nb})}
+
+
+def report_rows(run, bads, terms, ct):
+  """BAD lines of rows / cross rows / life rows -> violations."""
+  import stubgen_terms as st
+  import stublife as sl
+  for b in bads:
+    if "a" in b:
+      a = terms[b["a"] - 1]
+      for clause in ("eqm", "hash", "set"):
+        for x in b[clause]:
+          o = terms[x - 1]
+          na, nb = st.type_node(a), st.type_node(o)
+          obs = observe_pair(na, nb)
+          run.add("pairs_failing_" + clause)
+          if x in b["variant"]:
+            key = KEY_ORDER
+            what = "%s on %r vs %r: %s" % (clause, na, nb, obs)
+          elif clause == "eqm" and x in b["litvar"]:
+            # the known finding is about `==` alone (True == 1 with EQUAL hashes)
+            key = KEY_LIT
+            what = "%s on %r vs %r: %s" % (clause, na, nb, obs)
+          else:
+            key = "C12:%s:%s~%s" % (clause, term_str(a), term_str(o))
+            what = "%s on %r vs %r: %s (SpecEq by TLC)" % (clause, na, nb, obs)
+          run.violation(key, what, {"kind": "pair", "a": a, "b": o, "clause": clause, "observed": obs})
+    elif "xa" in b:
+      a = ct[b["xa"] - 1]
+      for clause in ("eqm", "hash", "set"):
+        for x in b[clause]:
+          o = ct[x - 1]
+          unit = sl.fill_pointers(sl.ct_unit([a]))
+          na, nb = unit.constants[0].type, st.type_node(o, class_type=True)
+          obs = observe_pair(na, nb)
+          run.add("xpairs_failing_" + clause)
+          if clause == "eqm" and x in b["litvar"]:
+            key = KEY_LIT
+          else:
+            key = KEY_PTR % (clause, term_str(a), term_str(o))
+          what = ("%s: %r (class pointers filled in) vs %r (no pointers): %s; SpecEq of the terms by TLC, "
+                  "class pointers are not part of a node's identity" % (clause, na, nb, obs))
+          run.violation(key, what, {"kind": "xpair", "a": a, "b": o, "clause": clause, "observed": obs})
+    elif "la" in b:
+      a = ct[b["la"] - 1]
+      if b["proto"]:
+        raise common.Machinery("life of %s did not follow PytdTerms.LifeOps / the expected pointer states: %s"
+                               % (term_str(a), b))
+      steps = sl.eq_life([a])[0]["steps"]
+      for clause in ("moved", "lost", "uneq"):
+        if b[clause]:
+          run.add("life_failing_" + clause)
+          ops = [steps[k - 1]["op"] for k in b[clause]]
+          run.violation("C12:life-%s:%s" % (clause, term_str(a)),
+                        "one node object %r through Fill -> Clear (Serialize) -> Decode -> Refill: %s at %s; steps %s"
+                        % (st.type_node(a, class_type=True),
+                           {"moved": "hash differs from the hash after Fill", "lost": "not found in a set built after Fill",
+                            "uneq": "not equal to the original"}[clause], ops, steps),
+                        {"kind": "life", "a": a, "clause": clause, "steps": steps})
+
+
+def judge(run, recs, srcs, terms, ct, rows, xrows, life, names, selftest=False):
+  """TLC judges the recorded runs (both lines) and the pair / cross / life rows (rows split over
+  <= 6 JVMs)."""
   import stubgen_terms as st
   boot.boot()
-  runs = [{"id": r["id"], "events": strip(r["events"]), "devs": r.get("devs", []),
+  runs = [{"id": r["id"], "line": r["line"], "events": strip(r["events"]), "devs": r.get("devs", []),
            "variants": [{"without": v["without"], "events": strip(v["events"])} for v in r.get("variants", [])]}
           for r in recs]
   shards = []
-  if rows:
-    n = 4 if len(rows) > 400 else 1
-    step = (len(rows) + n - 1) // n
-    shards = [rows[k:k + step] for k in range(0, len(rows), step)]
+  if rows or xrows:
+    n = 6 if len(rows) + len(xrows) > 400 else 1
+    s1 = (len(rows) + n - 1) // n or 1
+    s2 = (len(xrows) + n - 1) // n or 1
+    shards = [(rows[k * s1:(k + 1) * s1], xrows[k * s2:(k + 1) * s2]) for k in range(n)]
   # binding demonstration on every run: a recorded clean run / row with ONE corrupted field must be
   # rejected by TLC (else the machinery is vacuous: exit 2)
   expect = {}
   if selftest:
-    base = next((r for r in runs if len(r["events"]) == 5 and not r["devs"] and all(e["ok"] for e in r["events"])
-                 and r["events"][2]["d"] == r["events"][0]["d"] and r["events"][3]["d"] == r["events"][1]["d"]), None)
-    common.require(base is not None and rows, "no clean run to demonstrate the binding on")
-    for name, idx, clause in (("struct", 2, "struct"), ("bytes", 3, "bytes"), ("stable", 4, "stable")):
-      c = json.loads(json.dumps(base))
+    def clean(r, n):
+      return (r["line"] == n and not r["devs"] and all(e["ok"] for e in r["events"])
+              and len({e["d"] for e in r["events"] if e["op"] in ("Canonical", "Decode", "Reorder")}) <= 1
+              and len({e["d"] for e in r["events"] if e["op"] in ("Encode", "Reencode", "Reserialize", "Again")}) <= 1
+              and len({e["d"] for e in r["events"] if e["op"] in ("Hash", "Clear", "Found")}) <= 1
+              and all(e["e"] for e in r["events"] if e["op"] in ("Clear", "Found")))
+    base = next((r for r in runs if len(r["events"]) == 7 and clean(r, "bytes")), None)
+    nbase = next((r for r in runs if len(r["events"]) == 3 and clean(r, "nodes")), None)
+    common.require(base is not None and nbase is not None and rows and xrows and life,
+                   "no clean run to demonstrate the binding on")
+    for src, name, idx, field, clause in (
+        (base, "struct", 2, "d", "struct"), (base, "bytes", 3, "d", "bytes"), (base, "stable", 4, "d", "stable"),
+        (base, "repeat", 5, "d", "repeat"), (base, "order", 6, "d", "order"),
+        (nbase, "moved", 1, "d", "moved"), (nbase, "lost", 1, "e", "lost"),
+        (nbase, "rehash", 2, "d", "rehash"), (nbase, "dup", 2, "e", "dup")):
+      c = json.loads(json.dumps(src))
       c["id"] = "selftest:" + name
       c["devs"], c["variants"] = [], []
-      c["events"][idx]["d"] = "corrupted"
+      c["events"][idx][field] = "corrupted" if field == "d" else False
       expect[c["id"]] = clause
       runs.append(c)
-  jobs = [{"runs": runs, "terms": terms, "rows": shards[0] if shards else []}]
-  jobs += [{"runs": [], "terms": terms, "rows": sh} for sh in shards[1:]]
+  jobs = [mkjob(runs, terms, ct, shards[0][0] if shards else (), shards[0][1] if shards else (), life)]
+  jobs += [mkjob((), terms, ct, sh[0], sh[1]) for sh in shards[1:]]
   if selftest:
-    # a node that is not equal to itself, and a node with a hash different from its own
-    jobs.append({"runs": [], "terms": terms, "rows": [dict(rows[0], eq=[]), dict(rows[0], hne=[rows[0]["a"]])]})
+    # a node that is not equal to itself, a node with a hash different from its own - in the same
+    # and across pointer states; a node object whose hash moves when its pointers are cleared
+    l0 = json.loads(json.dumps(life[0]))
+    l0["steps"][1]["h"] = "moved"
+    l0["steps"][2]["inset"] = False
+    jobs.append(mkjob((), terms, ct, [dict(rows[0], eq=[]), dict(rows[0], hne=[rows[0]["a"]])],
+                      [dict(xrows[0], eq=[]), dict(xrows[0], hne=[xrows[0]["a"]])], [l0]))
   cfg = trace_cfg(names)
-
-  def one(job):
-    d = tlc.scratch("trace-TraceC12")
-    try:
-      tf = os.path.join(d, "trace.json")
-      with open(tf, "w") as f:
-        json.dump(job, f)
-      r = tlc.run("TraceC12", cfg, workers=1, timeout=6000, env={"TRACE_FILE": tf}, heap="6g")
-    finally:
-      import shutil
-      shutil.rmtree(d, ignore_errors=True)
-    if r.violated or r.rc != 0 or "violated" in r.out:
-      raise common.Machinery("TraceC12 did not consume its trace:\n" + r.out[-2500:])
-    return r
   t0 = time.time()
-  with cf.ThreadPoolExecutor(max_workers=6) as ex:
-    outs = list(ex.map(one, jobs))
+  with cf.ThreadPoolExecutor(max_workers=8) as ex:
+    outs = list(ex.map(lambda j: run_trace(j, cfg), jobs))
   run.add("tlc_trace_wall_s", round(time.time() - t0, 1))
-  nvar = 0
-  nrows = 0
+  counts = {"rows": 0, "nvar": 0, "xrows": 0, "nptr": 0, "life": 0, "life_ptr": 0}
   if selftest:
     st_rows = tlc.parse_cases(outs.pop().out, "BAD")
-    common.require(len(st_rows) == 2 and st_rows[0]["eqm"] == [rows[0]["a"]] and st_rows[1]["hash"] == [rows[0]["a"]],
-                   "binding demonstration failed: TLC accepted corrupted rows: %s" % st_rows)
-    run.add("selftest_rejected", 2)
+    ok = (len(st_rows) == 5 and st_rows[0]["eqm"] == [rows[0]["a"]] and st_rows[1]["hash"] == [rows[0]["a"]]
+          and st_rows[2]["eqm"] == [xrows[0]["a"]] and st_rows[3]["hash"] == [xrows[0]["a"]]
+          and st_rows[4]["moved"] == [2] and st_rows[4]["lost"] == [3] and not st_rows[4]["proto"])
+    common.require(ok, "binding demonstration failed: TLC accepted corrupted rows: %s" % st_rows)
+    run.add("selftest_rejected", 5)
   for r in outs:
     run.add("trace_states", r.distinct)
     for n in tlc.parse_cases(r.out, "NOTE"):
@@ -198,8 +285,15 @@ def judge(run, recs, srcs, terms, rows, names, selftest=False):
         run.diverge({"id": n["id"], "notes": n["notes"],
                      "what": "pytd_utils.ASTeq disagrees with the structural digests (not part of the property)"})
     for row in tlc.parse_cases(r.out, "ROW"):
-      nvar += row["nvariants"]
-      nrows += 1
+      counts["nvar"] += row["nvariants"]
+      counts["rows"] += 1
+    for row in tlc.parse_cases(r.out, "XROW"):
+      counts["nptr"] += row["nptr"]
+      counts["xrows"] += 1
+    for row in tlc.parse_cases(r.out, "LIFE"):
+      counts["life"] += 1
+      counts["life_ptr"] += 1 if row["ptr"] else 0
+    rowbads = []
     for b in tlc.parse_cases(r.out, "BAD"):
       if "terms" in b:
         raise common.Machinery("the rows were not computed for the terms PytdEq.tla enumerates")
@@ -210,54 +304,103 @@ def judge(run, recs, srcs, terms, rows, names, selftest=False):
         continue
       if "run" in b:
         rec = recs[b["run"] - 1]
-        msg = "; ".join("%s: %s" % (e["op"], e["x"]) for e in rec["events"] if e["x"])[:300]
-        src = srcs.get(rec["id"].split(":")[0]) if rec["origin"] in ("inferred", "export") else None
+        base_id = rec["id"].split("#")[0]
+        msg = "; ".join("%s: %s" % (e["op"], e["x"]) for e in rec["events"] if e["x"])[:400]
+        src = srcs.get(base_id.split(":")[0]) if rec["origin"] in ("inferred", "export") else rec.get("text")
+        fam = "roundtrip" if rec["line"] == "bytes" else "node-hash"
         if b["attr"] == ["unexplained"]:
-          key = "C12:roundtrip:%s:%s" % ("+".join(sorted(b["fails"])), rec["origin"])
-          what = "clauses %s fail on %s (%s) %s %s" % (sorted(b["fails"]), rec["id"], rec["origin"], msg,
-                                                     json.dumps(src[:1200]) if src else "")
+          key = "C12:%s:%s:%s" % (fam, "+".join(sorted(b["fails"])), rec["origin"])
+          what = "clauses %s fail on %s (%s, %s line%s) %s %s %s" % (
+              sorted(b["fails"]), rec["id"], rec["origin"], rec["line"],
+              ", module name %s" % rec["mod"] if rec.get("mod") else "", CLAUSES.get(fam, ""), msg,
+              json.dumps(src[:1200]) if src else "")
         else:
           key = "C12:" + "+".join(sorted(b["attr"]))
           what = "clauses %s fail on the %s AST of %s because of %s (%s)" % (
               sorted(b["fails"]), rec["origin"], json.dumps(src[:1200]) if src else rec["id"],
               "; ".join(st.C12_DEVIATIONS.get(d, d) for d in b["attr"]), msg)
-        run.add("failing_roundtrips")
+        run.add("failing_roundtrips" if rec["line"] == "bytes" else "failing_node_runs")
         run.violation(key, what,
                       {"kind": rec.get("kind", rec["origin"]), "id": rec["id"], "fails": b["fails"],
-                       "events": rec["events"], "src": srcs.get(rec["id"].split(":")[0] if rec["origin"] in ("inferred", "export") else rec["id"]),
+                       "events": rec["events"], "line": rec["line"],
+                       "src": srcs.get(base_id.split(":")[0] if rec["origin"] in ("inferred", "export") else base_id),
                        "item": rec.get("item")})
         continue
-      a = terms[b["a"] - 1]
-      for clause in ("eqm", "hash", "set"):
-        for x in b[clause]:
-          o = terms[x - 1]
-          na, nb = st.type_node(a), st.type_node(o)
-          obs = {"a == b": na == nb, "hash(a) == hash(b)": hash(na) == hash(nb), "len({a, b})": len({na, nb})}
-          run.add("pairs_failing_" + clause)
-          if x in b["variant"]:
-            key = KEY_ORDER
-            what = "%s on %r vs %r: %s" % (clause, na, nb, obs)
-          elif x in b["litvar"]:
-            key = KEY_LIT
-            what = "%s on %r vs %r: %s" % (clause, na, nb, obs)
-          else:
-            key = "C12:%s:%s~%s" % (clause, term_str(a), term_str(o))
-            what = "%s on %r vs %r: %s (SpecEq by TLC)" % (clause, na, nb, obs)
-          run.violation(key, what, {"kind": "pair", "a": a, "b": o, "clause": clause, "observed": obs})
+      rowbads.append(b)
+    report_rows(run, rowbads, terms, ct)
   common.require(not expect, "binding demonstration failed: TLC accepted corrupted runs %s" % sorted(expect))
-  return nrows, nvar
+  return counts
+
+
+CLAUSES = {
+    "roundtrip": "[struct: decoded declarations # canonically ordered pointer-free original; bytes: Encode(decoded) # b1; "
+                 "stable: Serialize(decoded.ast) # b1; repeat: Serialize of the SAME ast a second time # b1; "
+                 "order: canonical ordering of the decoded AST changes it, i.e. the stored order is not canonical]",
+    "node-hash": "[moved: hashes of the AST's own type nodes differ after Serialize cleared its class pointers in "
+                 "place; lost: a node is not found in a set built before; rehash: the decoded AST's type nodes hash "
+                 "differently from the original's although they are equal; dup: a decoded node is not found in the set "
+                 "of the original's nodes]",
+}
 
 
 def account(run, recs):
   feats = {}
   for r in recs:
+    if r["line"] == "nodes":
+      run.add("node_runs_" + r["origin"])
+      continue
     run.add("asts_" + r["origin"])
     run.add("bytes_encoded", r.get("bytes", 0))
+    p0, p1 = r.get("ptr", [0, 0])
+    if p0 and not p1:
+      run.add("asts_pointers_cleared_in_place")      # Serialize really changed the pointer state
     for k, v in r.get("feats", {}).items():
       if v:
         feats[k] = feats.get(k, 0) + 1
+    for k, v in r.get("flags", {}).items():
+      if v:
+        run.add("mix_" + k)
+    if r["origin"] in ("mix", "stubgen-text"):
+      run.add("text_asts_module_" + r["mod"])
   run.put("asts_with_feature", feats)
   return feats
+
+
+def replay(run, a, names):
+  import stublife as sl
+  with open(a.replay) as f:
+    case = json.load(f)["case"]
+  if case["kind"] in ("pair", "xpair", "life"):
+    # the terms are judged with the same verdict operators; TermsBound is not applicable to a replayed pair
+    if case["kind"] == "pair":
+      terms = [case["a"], case["b"]]
+      job = mkjob((), terms, (), sl.eq_rows(terms))
+    elif case["kind"] == "xpair":
+      terms = [case["a"], case["b"]]
+      job = mkjob((), terms, terms, (), sl.eq_xrows(terms))
+    else:
+      terms = [case["a"]]
+      job = mkjob((), terms, terms, (), (), sl.eq_life(terms))
+    r = run_trace(job, trace_cfg(names), timeout=600)
+    report_rows(run, [b for b in tlc.parse_cases(r.out, "BAD") if "terms" not in b], terms, terms)
+    run.put("programs", 0); run.put("disagreements_checked", 4); run.sample({case["kind"]: terms})
+    return run.finish()
+  if case["kind"] in ("inferred", "export", "emitted"):
+    it = {"kind": "emitted", "id": case["id"].split(":")[0], "src": case["src"]}
+  elif case["kind"].startswith("stubgen") or case["kind"] == "mix":
+    it = dict(case["item"])
+  else:
+    it = {"kind": "bundled", "id": "bundled"}
+  recs = [r for r in sl.c12_work(it) if not r.get("skip") and
+          (it["kind"] != "bundled" or r["id"].split("#")[0] == case["id"].split("#")[0])]
+  common.require(recs, "nothing to replay")
+  for r in recs:
+    r["item"] = it
+  judge(run, recs, {it["id"]: it.get("src")}, [], [], [], [], [], names)
+  account(run, recs)
+  run.put("programs", len(recs)); run.put("disagreements_checked", sum(len(r["events"]) for r in recs))
+  run.sample({"id": recs[0]["id"], "events": recs[0]["events"]})
+  return run.finish()
 
 
 def main():
@@ -272,37 +415,18 @@ def main():
   names = ["int", "str", "float", "A", "B"] if thorough else ["int", "str", "A"]
 
   if a.replay:
-    with open(a.replay) as f:
-      case = json.load(f)["case"]
-    if case["kind"] == "pair":
-      terms = [case["a"], case["b"]]
-      rows = sl.eq_rows(terms)
-      # the two terms are judged against SpecEq; TermsBound is not applicable to a replayed pair
-      judge_pair(run, terms, rows, names)
-      run.put("programs", 0); run.put("disagreements_checked", 4); run.sample({"pair": terms})
-      return run.finish()
-    if case["kind"] in ("inferred", "export", "emitted"):
-      it = {"kind": "emitted", "id": case["id"].split(":")[0], "src": case["src"]}
-    elif case["kind"].startswith("stubgen"):
-      it = dict(case["item"])
-    else:
-      it = {"kind": "bundled", "id": "bundled"}
-    recs = [r for r in sl.c12_work(it) if not r.get("skip") and (it["kind"] == "bundled" and r["id"] == case["id"] or it["kind"] != "bundled")]
-    common.require(recs, "nothing to replay")
-    judge(run, recs, {it["id"]: it.get("src")}, [], [], names)
-    account(run, recs)
-    run.put("programs", len(recs)); run.put("disagreements_checked", sum(len(r["events"]) for r in recs))
-    run.sample({"id": recs[0]["id"], "events": recs[0]["events"]})
-    return run.finish()
+    return replay(run, a, names)
 
   import c05
   import c05_progs
   import progs_d
   rng = random.Random(run.seed)
+  mixc = MIX_THOROUGH if thorough else MIX_QUICK
   items = [{"kind": "bundled", "id": "bundled"}]
   items += [{"kind": "emitted", "id": "dialect%02d" % k, "src": s} for k, s in enumerate(c05_progs.DIALECT)]
   items += [{"kind": "emitted", "id": "witness-" + k, "src": s} for k, s in sorted(c05_progs.WITNESS.items())]
   items += [{"kind": "emitted", "id": "witness12-" + k, "src": s} for k, s in sorted(c05_progs.C12_WITNESS.items())]
+  items += [{"kind": "emitted", "id": "witness12p-" + k, "src": s} for k, s in sorted(PTR_WITNESS.items())]
   items += [{"kind": "emitted", "id": "hand%02d" % k, "src": s} for k, s in enumerate(progs_d.HAND)]
   items += [{"kind": "emitted", "id": "gen%d" % k, "src": s}
             for k, s in enumerate(progs_d.generate(run.seed, 1200 if thorough else 80))]
@@ -320,22 +444,31 @@ def main():
   with cf.ThreadPoolExecutor(max_workers=12) as ex, \
        ctx.Pool(8, initializer=pyt._init_worker, initargs=(boot.REPO, 0)) as pool:  # pylint: disable=protected-access
     f_eq = ex.submit(eq_model, names)
+    f_mix = ex.submit(mix_model, mixc)
     f_model = ex.submit(c05.model_checks)
     f_prog = ex.submit(c05.gen_programs, plan, run.seed + 1)
     f_fams = [ex.submit(c05.gen_family, n, run.seed) for n in families]
     f_sims = [ex.submit(c05.gen_sim, nsim, run.seed * 37 + 11 + j) for j in range(sims)]
     first = pool.map_async(sl.c12_work, items, chunksize=2)
-    r_eq, terms = f_eq.result()
+    r_eq, terms, ct = f_eq.result()
     n = len(terms)
     step = max(8, n // 24)
-    row_items = [{"kind": "rows", "id": "rows%d" % lo, "terms": terms, "lo": lo, "hi": min(n, lo + step)}
+    row_items = [{"kind": "rows", "id": "rows%d" % lo, "terms": terms, "ct": ct, "lo": lo, "hi": min(n, lo + step)}
                  for lo in range(0, n, step)]
+    row_items.append({"kind": "life", "id": "life", "ct": ct})
     rows_async = pool.map_async(sl.c12_work, row_items, chunksize=1)
+    r_mix = f_mix.result()
+    items1 = [{"kind": "mix", "id": "mix%d" % k, "stub": c} for k, c in enumerate(r_mix.cases)]
+    mix_async = pool.map_async(sl.c12_work, items1, chunksize=8)
     items2 = []
     srcs2, pstates = f_prog.result()
     items2 += [{"kind": "emitted", "id": "proggen%d" % k, "src": s} for k, s in enumerate(srcs2)]
     seen = set()
     gstates = gtrans = 0
+    mods = sorted(mixc["mods"])        # the module names of ExportStubs.tla, one per StubGen stub in turn
+
+    def stub_item(ident, c):
+      return {"kind": "stubgen", "id": ident, "stub": c, "mod": mods[(len(seen) + run.seed) % len(mods)]}
     for f in f_fams:
       name, r = f.result()
       gstates += r.distinct
@@ -344,26 +477,30 @@ def main():
         key = json.dumps(c, sort_keys=True)
         if key not in seen:
           seen.add(key)
-          items2.append({"kind": "stubgen", "id": "fam-%s-%d" % (name, k), "stub": c})
+          items2.append(stub_item("fam-%s-%d" % (name, k), c))
     for j, f in enumerate(f_sims):
       r = f.result()
       for k, c in enumerate(r.cases):
         key = json.dumps(c, sort_keys=True)
         if key not in seen:
           seen.add(key)
-          items2.append({"kind": "stubgen", "id": "sim%d-%d" % (j, k), "stub": c})
+          items2.append(stub_item("sim%d-%d" % (j, k), c))
     run.put("stubgen_stubs", len(seen))
     second = pool.map_async(sl.c12_work, items2, chunksize=4)
-    results = first.get() + second.get()
-    rows = [row for part in rows_async.get() for x in part for row in x["rows"]]
+    results = first.get() + mix_async.get() + second.get()
+    parts = [x for part in rows_async.get() for x in part]
+    rows = [row for x in parts for row in x.get("rows", [])]
+    xrows = [row for x in parts for row in x.get("xrows", [])]
+    life = [row for x in parts for row in x.get("life", [])]
     mstates, mtrans = f_model.result()
-  items += items2
+  items += items1 + items2
   run.add("pipeline_wall_s", round(time.time() - t0, 1))
-  rows.sort(key=lambda r: r["a"])
-  common.require([r["a"] for r in rows] == list(range(1, n + 1)), "pair rows incomplete")
+  for rs, what in ((rows, "pair"), (xrows, "cross"), (life, "life")):
+    rs.sort(key=lambda r: r["a"])
+    common.require([r["a"] for r in rs] == list(range(1, n + 1)), "%s rows incomplete" % what)
 
   srcs = {it["id"]: it.get("src") for it in items if it["kind"] == "emitted"}
-  stubs = {it["id"]: it for it in items if it["kind"] == "stubgen"}
+  stubs = {it["id"]: it for it in items if it["kind"] in ("stubgen", "mix")}
   recs = []
   for it, out in zip(items, results):
     for r in out:
@@ -373,85 +510,113 @@ def main():
         # crash / compile error (C15), stub that does not re-parse or resolve (C05): nothing to pickle
         run.add("not_serialisable_" + r["skip"].split(":")[0])
         continue
-      if it["kind"] == "stubgen":
+      if it["kind"] in ("stubgen", "mix"):
         r["item"] = stubs[it["id"]]
       recs.append(r)
-  nrows, nvar = judge(run, recs, srcs, terms, rows, names, selftest=True)
-  common.require(nrows == n, "TLC judged %d of %d rows" % (nrows, n))
+  cnt = judge(run, recs, srcs, terms, ct, rows, xrows, life, names, selftest=True)
+  nvar = cnt["nvar"]
+  common.require(cnt["rows"] == n and cnt["xrows"] == n and cnt["life"] == n,
+                 "TLC judged %s of %d rows of each kind" % (cnt, n))
   feats = account(run, recs)
   npairs = n * n
-  run.put("programs", len(recs))
+  nb = [r for r in recs if r["line"] == "bytes"]
+  run.put("programs", len(nb))
   run.put("type_terms", n)
   run.put("node_pairs", npairs)
+  run.put("node_pairs_across_pointer_states", npairs)
+  run.put("node_lives", n)
   run.put("equal_pairs_observed", sum(len(r["eq"]) for r in rows))
+  run.put("equal_pairs_across_pointer_states", sum(len(r["eq"]) for r in xrows))
+  run.put("equal_pairs_with_pointer_by_spec", cnt["nptr"])
   run.put("order_variant_pairs", nvar)
-  run.put("disagreements_checked", sum(len(r["events"]) for r in recs) + 3 * npairs)
-  run.put("states", r_eq.distinct + mstates)
-  run.put("transitions", r_eq.generated + mtrans)
-  run.put("model_states", {"PytdEq_pairs": r_eq.distinct, "StubRoundTrip": mstates,
+  run.put("disagreements_checked", sum(len(r["events"]) for r in recs) + 6 * npairs + 12 * n)
+  run.put("states", r_eq.distinct + mstates + r_mix.distinct)
+  run.put("transitions", r_eq.generated + mtrans + r_mix.generated)
+  run.put("model_states", {"PytdEq_pairs": r_eq.distinct, "StubRoundTrip": mstates, "ExportStubs": r_mix.distinct,
                            "StubGen_exhaustive_families": gstates, "ProgGen_simulated": pstates})
-  run.put("evaluations", len(recs) + npairs)
+  run.put("evaluations", len(recs) + 2 * npairs + n)
   run.put("distinct_nontrivial",
-          len({r["events"][1]["d"] for r in recs if len(r["events"]) > 1 and sum(r.get("feats", {}).values()) >= 3})
+          len({r["events"][1]["d"] for r in nb if len(r["events"]) > 1 and sum(r.get("feats", {}).values()) >= 3})
           + sum(1 for r in rows for j in r["eq"] if j != r["a"]))
-  run.put("rule", "round trips: one case = one AST through Serialize/DecodeAst/Encode/Serialize on the real code "
+  run.put("rule", "round trips: one case = one AST through Serialize/DecodeAst/Encode/Serialize(decoded)/Serialize(same)/"
+          "CanonicalOrdering(decoded) on the real code, and its node line (hashes of its type nodes before / after the "
+          "pointers are cleared, decoded nodes against a set of the original's) "
           "(distinct by digest of the encoded bytes; non-trivial = the AST shows >= 3 dialect features); "
-          "equality law: one case = one ordered pair of real type nodes built from PytdEq.tla's terms "
+          "equality law: one case = one ordered pair of real type nodes built from PytdEq.tla's terms, in the same "
+          "and across class-pointer states, or the life of one node object "
           "(non-trivial = the two nodes are distinct terms that compare equal)")
+  want = {"dialect05:export", "bundled:typing", "fam-classes-7:resolved"}
   for r in recs:
-    if r["id"] in ("dialect05:export", "bundled:typing", "fam-classes-7:resolved"):
-      run.sample({"id": r["id"], "origin": r["origin"], "bytes": r["bytes"],
+    if r["id"] in want or (r["origin"] == "mix" and r.get("flags", {}).get("sensitive") and "mix" not in want):
+      if r["origin"] == "mix":
+        want.add("mix")
+      run.sample({"id": r["id"], "origin": r["origin"], "bytes": r["bytes"], "text": r.get("text", ""),
                   "events": [[e["op"], e["ok"], e["d"]] for e in r["events"]]})
   big = [r for r in rows if len(r["eq"]) > 2][:1]
   for r in big:
     run.sample({"term": terms[r["a"] - 1], "equal_to": [terms[j - 1] for j in r["eq"][:4]],
                 "hash_differs": [terms[j - 1] for j in r["hne"][:4]]})
+  for r in life:
+    if any(s["ptr"] == "r" for s in r["steps"]) and ct[r["a"] - 1][0] == "lit":
+      run.sample({"life_of": ct[r["a"] - 1], "steps": r["steps"]})
+      break
   # vacuity guards
   need = {"classes": 300, "overloads": 100, "generics": 300, "typevars": 150, "callables": 100,
           "unions": 200, "tuples": 100, "generic_class": 30, "literals": 50, "late": 3, "nested": 10}
   lack = ["%s=%d<%d" % (k, feats.get(k, 0), v) for k, v in need.items() if feats.get(k, 0) < v]
   common.require(not lack, "vacuity: too few ASTs with " + ", ".join(lack))
   for o, m in (("inferred", 300), ("export", 300), ("stubgen-named", 600), ("stubgen-resolved", 600),
-               ("bundled", 15), ("bundle", 1)):
+               ("bundled", 15), ("bundle", 1), ("stubgen-text", 500), ("mix", len(r_mix.cases) * 9 // 10)):
     common.require(run.cov.get("asts_" + o, 0) >= m, "vacuity: %s ASTs of origin %s" % (run.cov.get("asts_" + o, 0), o))
+    if o != "bundle":
+      common.require(run.cov.get("node_runs_" + o, 0) >= m, "vacuity: %s node runs of origin %s" % (run.cov.get("node_runs_" + o, 0), o))
   common.require(nvar >= 300 and run.cov["equal_pairs_observed"] > n,
                  "vacuity: %d equal-but-differently-ordered union pairs" % nvar)
+  # the new families were really exercised
+  common.require(run.cov.get("mix_sensitive", 0) >= 40 and run.cov.get("mix_mixed", 0) >= 150 and run.cov.get("mix_enum", 0) >= 30,
+                 "vacuity: ExportStubs cases sensitive=%s mixed=%s enum=%s" % (
+                     run.cov.get("mix_sensitive", 0), run.cov.get("mix_mixed", 0), run.cov.get("mix_enum", 0)))
+  for m in mixc["mods"]:
+    common.require(run.cov.get("text_asts_module_" + m, 0) >= 100, "vacuity: %s text ASTs under module name %s" % (
+        run.cov.get("text_asts_module_" + m, 0), m))
+  common.require(run.cov.get("asts_pointers_cleared_in_place", 0) >= 1500,
+                 "vacuity: Serialize cleared pointers in place on only %s ASTs" % run.cov.get("asts_pointers_cleared_in_place", 0))
+  common.require(cnt["nptr"] >= n and cnt["life_ptr"] >= n // 2 and run.cov["equal_pairs_across_pointer_states"] >= n,
+                 "vacuity: pointer-state dimension: %s, equal cross pairs %s" % (cnt, run.cov["equal_pairs_across_pointer_states"]))
+  nres = sum(1 for r in xrows if r["ptr"][0] == "r" and r["ptr"][1] == "u")
+  common.require(nres >= n // 2, "vacuity: only %d terms were built with pointers filled in / without" % nres)
+  nlit = sum(1 for r in life if ct[r["a"] - 1][0] == "lit" and ct[r["a"] - 1][1].startswith("enum:")
+             and [s["ptr"] for s in r["steps"]] == ["r", "u", "u", "r"])
+  common.require(nlit >= 2, "vacuity: %d enum-valued literals went through the four pointer states" % nlit)
   run.assumptions += [
       "structural equality is a digest of an explicit dump of the node tree (ClassType.cls pointers and lookup "
       "caches excluded), independent of pytd's own __eq__/__hash__",
       "the canonically ordered original is what SerializeAst defines: module aliases undone in late types, "
-      "`.__init__` stripped from the module name, class pointers cleared, CanonicalOrderingVisitor",
+      "`.__init__` stripped from the module name, class pointers cleared, CanonicalOrderingVisitor - computed on a "
+      "pointer-free copy of the declarations",
       "ASTs of programs whose stub does not re-parse (C05 findings) have no exportable form and are counted, not judged",
-      "type terms: depth <= 2 over %d class names; every pytd node class that carries a type" % len(names)]
+      "type terms: depth <= 2 over %d class names; every pytd node class that carries a type; pointer states: "
+      "all pointers filled in against none (no partially filled node in the pair law; ASTs in mixed state are "
+      "covered by the round trips)" % len(names),
+      "node line: multisets of hashes are compared (sorted), which is exact when the structures agree (struct clause)"]
   return run.finish()
 
 
-def judge_pair(run, terms, rows, names):
-  """Replay of one pair: the same verdict operators, without the AllTerms binding."""
-  import stubgen_terms as st
-  job = {"runs": [], "terms": terms, "rows": rows}
-  d = tlc.scratch("trace-TraceC12")
-  try:
-    tf = os.path.join(d, "trace.json")
-    with open(tf, "w") as f:
-      json.dump(job, f)
-    r = tlc.run("TraceC12", trace_cfg(names), workers=1, timeout=600, env={"TRACE_FILE": tf})
-  finally:
-    import shutil
-    shutil.rmtree(d, ignore_errors=True)
-  common.require(r.rc == 0 and not r.violated, "TraceC12 failed:\n" + r.out[-2000:])
-  for b in tlc.parse_cases(r.out, "BAD"):
-    if "terms" in b:
-      continue     # a replayed pair is not the whole enumeration
-    a = terms[b["a"] - 1]
-    for clause in ("eqm", "hash", "set"):
-      for x in b[clause]:
-        o = terms[x - 1]
-        key = KEY_ORDER if x in b["variant"] else KEY_LIT if x in b["litvar"] else \
-            "C12:%s:%s~%s" % (clause, term_str(a), term_str(o))
-        run.violation(key, "%s on %r vs %r" % (clause, st.type_node(a), st.type_node(o)),
-                      {"kind": "pair", "a": a, "b": o, "clause": clause})
-  return len(rows), 0
+# programs whose inferred / exported AST holds enum-valued literals and same-base containers
+PTR_WITNESS = {
+    "enum-literal": (
+        "import enum\nfrom typing import List, Literal\n\nclass Color(enum.Enum):\n  RED = 1\n  BLUE = 2\n\n"
+        "def paint(c: Literal[Color.RED], width: Literal[1, 2], fill: Literal[True]) -> List[Literal[Color.BLUE]]:\n"
+        "  return [Color.BLUE]\n"),
+    "enum-literal-union": (
+        "import enum\nfrom typing import Literal, Union\n\nclass Color(enum.Enum):\n  RED = 1\n  BLUE = 2\n\n"
+        "x: Literal[Color.RED, Color.BLUE]\ny: Union[Literal[Color.RED], int]\n"
+        "def f(c: Union[Literal[Color.RED], None]) -> Literal[Color.BLUE]:\n  return Color.BLUE\n"),
+    "mapping-union": (
+        "from typing import Hashable, Mapping, Sequence, Union\n\nclass Key: ...\n\n"
+        "def lookup(table: Union[Mapping[Key, int], Mapping[Hashable, str]]) -> None: ...\n"
+        "def seq(xs: Union[Sequence[Key], Sequence[Hashable]]) -> None: ...\n"),
+}
 
 
 if __name__ == "__main__":
